@@ -572,6 +572,10 @@ func (e *CEnv) binary(n *ast.BinaryExpr) *Val {
 			t = and(eq(a.ityp(), b.ityp()), eq(a.ival(), b.ival()))
 		case a.K == KPtr && b.K == KPtr:
 			t = eq(e.ptrTerm(a), e.ptrTerm(b))
+		case a.K == KPtr && b.K == KIface:
+			t = eq(e.ptrTerm(a), b.ival())
+		case a.K == KIface && b.K == KPtr:
+			t = eq(a.ival(), e.ptrTerm(b))
 		case a.K == KSeq || b.K == KSeq:
 			e.errf("use seqeq to compare sequences")
 		default:
@@ -814,6 +818,12 @@ func (e *CEnv) call(n *ast.CallExpr) *Val {
 			}
 		}
 		e.errf("bytype: no case for type %s", have)
+	case "sameslice":
+		a := e.args(n, 2, "sameslice")
+		if (a[0].K != KSlice && a[0].K != KString) || a[0].K != a[1].K {
+			e.errf("sameslice of %v and %v", a[0].K, a[1].K)
+		}
+		return boolVal(and(eq(a[0].arr(), a[1].arr()), eq(a[0].off(), a[1].off()), eq(a[0].ln(), a[1].ln())))
 	case "statictypeid":
 		xv := e.args(n, 1, "statictypeid")[0]
 		if xv.T == nil {
